@@ -94,3 +94,19 @@ func (f *FSMSnapshot) Release() {
 		f.OnRelease(f.persistInvoked, f.persistSucceeded)
 	}
 }
+
+// markerInvalidatingSnapshotStore wraps the Snapshot Store handed to Raft, and
+// invalidates the clean snapshot marker whenever a new snapshot is started.
+type markerInvalidatingSnapshotStore struct {
+	raft.SnapshotStore
+	invalidate func() error
+}
+
+// Create invalidates the marker and then creates the snapshot sink.
+func (m *markerInvalidatingSnapshotStore) Create(version raft.SnapshotVersion, index, term uint64,
+	configuration raft.Configuration, configurationIndex uint64, trans raft.Transport) (raft.SnapshotSink, error) {
+	if err := m.invalidate(); err != nil {
+		return nil, err
+	}
+	return m.SnapshotStore.Create(version, index, term, configuration, configurationIndex, trans)
+}
